@@ -20,7 +20,29 @@ def run(ctx):
     c = C["monkeytype.stubs:update_signature_args"]
     H.section("update_signature_args", "all valid signatures (<= n params over 5 kinds x defaults x annotated?) x traced subsets x strategies x has_self",
               "n=%d" % (3 if thorough else 2))
+    from runtime import fixtures as FX
     tys = [int, List[str], None]
+    # a traced type that evaluates false (class with a metaclass __len__): still a traced type
+    c_ = C["monkeytype.stubs:update_signature_args"]
+    H.section("update_signature_args with a falsy class as traced type", "one- and two-parameter signatures (annotated / unannotated) x strategies, the traced type of the first parameter is a class whose metaclass makes it evaluate false", "8 signatures x 3 strategies")
+    P_ = inspect.Parameter
+    for ann in (P_.empty, int):
+        for extra in ((), (P_("b", P_.POSITIONAL_OR_KEYWORD),)):
+            for kind_ in (P_.POSITIONAL_OR_KEYWORD, P_.KEYWORD_ONLY):
+                try:
+                    sig = inspect.Signature([P_("a", kind_, annotation=ann)] + list(extra)) if kind_ != P_.KEYWORD_ONLY else inspect.Signature(list(extra) + [P_("a", kind_, annotation=ann)])
+                except ValueError:
+                    continue
+                for s in S:
+                    kw = dict(sig=sig, arg_types={"a": FX.Falsy}, has_self=False, existing_annotation_strategy=s)
+                    st, d = rc.check_call(c_, stubs.update_signature_args, kw)
+                    key = "falsy|%s|%s" % (sig, s.name)
+                    if st == "fail":
+                        H.violation(c_.target, "update_signature_args:%s:%s" % (d["failed"], key), "update_signature_args violates %s (traced type is a falsy class)" % d["failed"], {"sig": str(sig), "strategy": s.name}, d)
+                    elif st == "ok":
+                        H.ok(key, sample={"sig": str(sig), "strategy": s.name, "result": d.get("result")})
+                    elif st == "error":
+                        raise RuntimeError(d)
     for sig in corpus.valid_signatures(3 if thorough else 2, ret=(inspect.Signature.empty,)):
         names = list(sig.parameters)
         subsets = list(itertools.chain.from_iterable(itertools.combinations(names, r) for r in range(len(names) + 1)))
